@@ -114,3 +114,35 @@ def own_rule(prog, R, rid, files, floor, desc=None, kinds=("leak", "double-relea
     if o.gave_up:
         r.info["note"] = "functions whose state cap was exceeded fall back to the naming convention for their summary"
     return r
+
+
+def realloc_rule(prog, R, rid, floor=5):
+    """`p = realloc(p, n)`: on failure p is NULL and the block it pointed to is lost"""
+    r = R.rule(rid, "the result of a reallocation is never stored straight back into the pointer that was handed in: on failure the old block would be lost "
+               "(and its contents with it)", floor=floor, analysis="call-site census: result holder vs first argument")
+    n = 0
+    for f in sorted(prog.funcs.values(), key=lambda x: x.key):
+        if not f.file.startswith("src/lib/"):
+            continue
+        for b, i, c in f.calls_to("ares_realloc", "ares_realloc_zero"):
+            n += 1
+            a0 = render(strip(c["args"][0]))
+            holder = None
+            for j in range(i + 1, len(b.els)):
+                e2 = b.els[j]
+                if e2["k"] == "asg" and e2["e"]["op"] == "=":
+                    rr = strip(e2["e"].get("r"))
+                    if rr is not None and rr.get("k") == "call" and rr.get("id") == c.get("id"):
+                        holder = render(strip(e2["e"]["l"]))
+                        break
+                if e2["k"] == "decl":
+                    for v in e2["vars"]:
+                        rr = strip(v.get("init")) if v.get("init") is not None else None
+                        if rr is not None and rr.get("k") == "call" and rr.get("id") == c.get("id"):
+                            holder = v["n"]
+            k = "fn=%s realloc(%s) result kept apart" % (f.name, a0)
+            if holder is not None and holder == a0:
+                r.viol(k, f.name, f.loc(c["ln"]), "%s = %s(%s, ...): when the reallocation fails %s becomes NULL and the block it pointed to (everything collected so far) is leaked; the cleanup that follows frees NULL" % (holder, c["callee"], a0, a0))
+            else:
+                r.ok(k, f.loc(c["ln"]), nontrivial=False)
+    r.require(n >= floor, "fewer than %d reallocation sites found" % floor)
